@@ -51,6 +51,10 @@ CHECKS = {
             "§6 C20",
             "unbounded proof (induction over the member iteration) + extraction + differential correspondence",
             "Modelled, not verified: CPython tarfile (transcribed from 3.12). Outside the model (reported as unsupported, never compared): pax headers, old GNU sparse members, int()'s signed/0o/underscore octal spellings. A visor prefix field of 151 bytes without NUL is compared model-vs-implementation only (the property speaks about extracted bytes)."),
+    "C19": ("Lean 4 theorems entity_decl_refused (any event stream containing an entity declaration / unparsed-entity declaration / external-entity reference, at any position and nesting depth, is refused at the first such event and nothing after it is consumed), declares_entities_refused, no_decl_parses_as_usual (no entity events: consumed exactly as by the plain parser), all_entrypoints_hardened (decide over the XML entry-point and import tables re-extracted from the source AST on every run: exactly one parse call per XML-reading module, each resolving to defusedxml.ElementTree.fromstring with default flags; non-hardened XML imports only under TYPE_CHECKING), defaults_spec (the installed defusedxml's default flags); hostile and benign documents x prolog variants at all four entry points under an audit hook and the time/memory watchdog: real code vs model vs expectation",
+            "§6 C19",
+            "proof of the decision logic + kernel-evaluated entry-point table (regenerated from the source) + differential runtime check with hostile documents",
+            "PARTIAL by nature: expat and defusedxml are trusted libraries; the model is the hardened parser's decision logic over the expat event stream and the wiring of the four entry points. What the model cannot exhibit: expat's own behaviour on malformed input, memory use of the C parser."),
 }
 
 NOT_YET = {
